@@ -84,6 +84,9 @@ pub struct Shared {
     pub greeting_len: usize,
     /// short writes: the transport accepts at most this many bytes per write call
     pub write_chunk: Option<usize>,
+    /// lazy server: bytes written by the client wait here until a ServerStep event processes a line
+    pub lazy: bool,
+    pub inbox: Vec<u8>,
 }
 
 impl Shared {
@@ -163,7 +166,11 @@ impl AsyncWrite for MockIo {
         let produced = s.visible_len();
         s.read_pos_at_write.push((wl, rp, produced));
         if s.closed_at.is_none() {
-            s.server.feed(buf, &mut s.s2c);
+            if s.lazy {
+                s.inbox.extend_from_slice(buf);
+            } else {
+                s.server.feed(buf, &mut s.s2c);
+            }
         }
         Poll::Ready(Ok(buf.len()))
     }
@@ -250,6 +257,12 @@ pub struct Scenario {
     pub race_budget: usize,
     /// `Some(n)`: the transport accepts at most n bytes per write call (short writes)
     pub write_chunk: Option<usize>,
+    /// the server processes request lines only at explicit ServerStep events (validation of the
+    /// eager-server reduction, DESIGN.md section 5)
+    pub lazy_server: bool,
+    /// subsystem changes that happen before the server has processed the client's first `idle`
+    /// (they count against `notify_budget`)
+    pub initial_notifications: Vec<&'static str>,
     pub faults: Vec<FaultKind>,
     pub fault_budget: usize,
     pub tick_anywhere: bool,
@@ -278,6 +291,8 @@ impl Scenario {
             cancel_budget: 0,
             race_budget: 1,
             write_chunk: None,
+            lazy_server: false,
+            initial_notifications: vec![],
             faults: vec![],
             fault_budget: 0,
             tick_anywhere: false,
@@ -302,6 +317,8 @@ impl Scenario {
             "cancel_budget": self.cancel_budget,
             "race_budget": self.race_budget,
             "write_chunk": self.write_chunk,
+            "lazy_server": self.lazy_server,
+            "initial_notifications": self.initial_notifications,
             "faults": self.faults.iter().map(|f| format!("{f:?}")).collect::<Vec<_>>(),
             "fault_budget": self.fault_budget,
             "tick_anywhere": self.tick_anywhere,
@@ -317,6 +334,8 @@ impl Scenario {
 #[derive(Clone, Debug, PartialEq, Eq, Hash)]
 pub enum Ev {
     Stop,
+    /// lazy server only: process the next complete request line
+    ServerStep,
     DeliverAll,
     Deliver(usize),
     Issue(usize),
@@ -340,6 +359,7 @@ impl Ev {
     pub fn name(&self) -> String {
         match self {
             Ev::Stop => "Stop".into(),
+            Ev::ServerStep => "ServerStep".into(),
             Ev::DeliverAll => "DeliverAll".into(),
             Ev::Deliver(k) => format!("Deliver({k})"),
             Ev::Issue(i) => format!("Issue({i})"),
@@ -529,6 +549,36 @@ pub struct Trace {
 }
 
 impl Trace {
+    /// what the client can observe / does, up to the drain: the stream of bytes it read, the stream
+    /// it wrote, and the order of completions and events relative to those streams
+    pub fn projection_hash(&self) -> u64 {
+        let mut items: Vec<String> = Vec::new();
+        let mut rh = 0u64;
+        let mut r = String::new();
+        let mut wlen = 0usize;
+        for o in &self.log {
+            match o {
+                Obs::Drain => break,
+                Obs::Read(b) => {
+                    // content matters, chunking does not: fold the bytes into a running hash
+                    for x in b {
+                        rh = (rh ^ *x as u64).wrapping_mul(0x100000001b3);
+                    }
+                    r = format!("{rh:x}");
+                }
+                Obs::Write(b) => {
+                    wlen += b.len();
+                    items.push(format!("W{}@r{}", show_bytes(b), r));
+                }
+                Obs::Done { caller, op, result } => items.push(format!("D{caller}.{op}={result}@r{r}w{wlen}")),
+                Obs::Event(e) => items.push(format!("E{e}@r{r}w{wlen}")),
+                Obs::ReadEof | Obs::ReadErr | Obs::WriteErr | Obs::EventsEnded | Obs::IoDropped => items.push(format!("{o:?}")),
+                _ => {}
+            }
+        }
+        hash64(&items)
+    }
+
     pub fn choice_names(&self) -> Vec<String> {
         self.points.iter().map(|p| p.enabled[p.chosen].name()).collect()
     }
@@ -859,6 +909,16 @@ impl World {
         }
     }
 
+    /// lazy server: process everything the client has written so far
+    fn flush_inbox(&self) {
+        let mut guard = self.sh();
+        let s = &mut *guard;
+        if s.lazy && !s.inbox.is_empty() && s.closed_at.is_none() {
+            let bytes = std::mem::take(&mut s.inbox);
+            s.server.feed(&bytes, &mut s.s2c);
+        }
+    }
+
     fn last_client_line(&self) -> Option<Vec<u8>> {
         let s = self.sh();
         let c = &s.c2s;
@@ -917,6 +977,9 @@ impl World {
         };
         let mut defaults: Vec<Ev> = Vec::new();
         let mut alts: Vec<Ev> = Vec::new();
+        if self.sh().inbox.contains(&b'\n') {
+            defaults.push(Ev::ServerStep);
+        }
         if undelivered > 0 {
             defaults.push(Ev::DeliverAll);
             if self.splits_used < self.scn.split_budget {
@@ -1043,6 +1106,16 @@ impl World {
     async fn apply(&mut self, ev: &Ev) {
         match ev {
             Ev::Stop => {}
+            Ev::ServerStep => {
+                let mut guard = self.sh();
+                let s = &mut *guard;
+                if let Some(p) = s.inbox.iter().position(|&b| b == b'\n') {
+                    let line: Vec<u8> = s.inbox.drain(..=p).collect();
+                    if s.closed_at.is_none() {
+                        s.server.feed(&line, &mut s.s2c);
+                    }
+                }
+            }
             Ev::DeliverAll => {
                 let mut s = self.sh();
                 s.delivered = s.visible_len();
@@ -1216,6 +1289,11 @@ async fn run_async(scn: &Scenario, chooser: &mut dyn Chooser) -> Result<Trace, S
     let mut server = SimServer::new(scn.server.clone());
     let mut s2c = Vec::new();
     s2c.extend_from_slice(&scn.greeting);
+    for n in &scn.initial_notifications {
+        // the server is not idle yet: the change is remembered and reported by the first idle
+        let mut sink = Vec::new();
+        server.notify(n, &mut sink);
+    }
     let _ = &mut server;
     let shared = Arc::new(Mutex::new(Shared {
         delivered: if scn.greeting_upfront { s2c.len() } else { 0 },
@@ -1238,6 +1316,8 @@ async fn run_async(scn: &Scenario, chooser: &mut dyn Chooser) -> Result<Trace, S
         obs_running: 0,
         greeting_len: scn.greeting.len(),
         write_chunk: scn.write_chunk,
+        lazy: scn.lazy_server,
+        inbox: Vec::new(),
     }));
 
     let io = MockIo(shared.clone());
@@ -1278,7 +1358,7 @@ async fn run_async(scn: &Scenario, chooser: &mut dyn Chooser) -> Result<Trace, S
         events: Vec::new(),
         events_ended: false,
         splits_used: 0,
-        notifies_used: 0,
+        notifies_used: scn.initial_notifications.len(),
         cancels_used: 0,
         races_used: 0,
         faults_used: 0,
@@ -1337,6 +1417,7 @@ async fn run_async(scn: &Scenario, chooser: &mut dyn Chooser) -> Result<Trace, S
 
     // ---- drain ---------------------------------------------------------------------------
     w.log(Obs::Drain);
+    w.flush_inbox();
     {
         let mut s = w.sh();
         s.delivered = s.visible_len();
@@ -1379,12 +1460,15 @@ async fn run_async(scn: &Scenario, chooser: &mut dyn Chooser) -> Result<Trace, S
         w.ticks += Duration::from_millis(100);
         tokio::time::advance(Duration::from_millis(100)).await;
         w.settle().await;
-        {
-            let mut s = w.sh();
-            s.delivered = s.visible_len();
-            s.wake_reader();
+        for _ in 0..4 {
+            w.flush_inbox();
+            {
+                let mut s = w.sh();
+                s.delivered = s.visible_len();
+                s.wake_reader();
+            }
+            w.settle().await;
         }
-        w.settle().await;
     }
     if scn.late_probe && w.ops.len() > scn.callers.len() {
         late_probe = Some(w.ops.pop().unwrap()[0].clone());
@@ -1463,6 +1547,9 @@ pub struct ExploreStats {
     pub transitions: u64,
     pub states: HashSet<u64>,
     pub final_transcripts: HashSet<u64>,
+    /// client-observable traces (reads, writes, completions, events; harness events projected away)
+    pub projections: HashSet<u64>,
+    pub projection_examples: std::collections::HashMap<u64, Vec<String>>,
     pub max_depth: usize,
     pub by_deviation: BTreeMap<usize, u64>,
     pub counters: BTreeMap<String, u64>,
@@ -1479,6 +1566,10 @@ impl ExploreStats {
         self.transitions += o.transitions;
         self.states.extend(o.states);
         self.final_transcripts.extend(o.final_transcripts);
+        self.projections.extend(o.projections);
+        for (k, v) in o.projection_examples {
+            self.projection_examples.entry(k).or_insert(v);
+        }
         self.max_depth = self.max_depth.max(o.max_depth);
         for (k, v) in o.by_deviation {
             *self.by_deviation.entry(k).or_default() += v;
@@ -1522,6 +1613,10 @@ fn process_trace(scn: &Scenario, t: &Trace, oracle: &Oracle, st: &mut ExploreSta
         st.states.insert(*h);
     }
     st.final_transcripts.insert(hash64(&(&t.c2s, &t.s2c)));
+    let ph = t.projection_hash();
+    if st.projections.insert(ph) && scn.lazy_server {
+        st.projection_examples.insert(ph, t.choice_names());
+    }
     if t.hit_step_cap {
         st.step_cap_hits += 1;
     }
